@@ -111,7 +111,8 @@ class RiscvParser(Parser):
             (
                 pp.Combine("0x" + pp.Word(pp.hexnums))
                 | pp.Combine("0b" + pp.Word("01"))
-                | pp.Word(pp.nums)
+                # no leading zeros: int(text, base=0) rejects them with a ValueError
+                | pp.Regex(r"0|[1-9][0-9]*")
             )
         )
     )
